@@ -6,6 +6,7 @@ import SaModel.Build.Finish
 import SaModel.Build.Dec
 import SaModel.Spec.Interp
 import SaModel.Spec.WF
+import SaModel.Spec.Blame
 /-
 suite `build`: `to_marrow(fields, rows)`.
   agree : the operational builder model (SaModel/Build) reproduces the implementation's outcome class, on
@@ -136,11 +137,18 @@ def handle (j : Json) : Except String Verdict := do
       let ia := annOfImpl ((impl.getObjVal? "err").toOption.getD Json.null)
       let ma := model.ann
       let annEq := ia == ma
-      -- C18 (serializer half): the error names a field, and it is the field the model blames
-      let c18 := if ia.lookup "field" == none || ia.lookup "data_type" == none then "fail" else if annEq then "pass" else "na"
+      -- C18 (serializer half): the error names a field (and a data type), and the field is one of the positions
+      -- at which the documented mapping is undefined for the first unrepresentable row (Spec/Blame.lean)
+      let blamed := match firstBad.bind (fun i => rows[i]?) with
+        | some row => blameRow ext fields row
+        | none => []
+      let c18 :=
+        if ia.lookup "field" == none || ia.lookup "data_type" == none then "fail"
+        else if anyMalformed || blamed.isEmpty then "na"
+        else if blamed.contains ((ia.lookup "field").getD "") then "pass" else "fail"
       return { agree := annEq, spec := [("C16", c16), ("C05", "pass"), ("C01", "na"), ("C03", "na"), ("C18", c18)], tags := "err" :: tags,
-               sig := if annEq then "" else s!"build/ann/{(ma.lookup "data_type").getD "-"}",
-               why := if annEq then "" else s!"annotations: model {repr ma}, implementation {repr ia}" }
+               sig := if !annEq then s!"build/ann/{(ma.lookup "data_type").getD "-"}" else if c18 == "fail" then s!"build/C18/{(ia.lookup "data_type").getD "-"}" else "",
+               why := if !annEq then s!"annotations: model {repr ma}, implementation {repr ia}" else if c18 == "fail" then s!"blamed field {repr (ia.lookup "field")} not among {repr blamed}" else "" }
     else
       return { agree := true, spec := [("C16", c16), ("C05", "na"), ("C01", "na"), ("C03", "na"), ("C18", "na")], tags := tags }
   | .ok marrs =>
